@@ -362,6 +362,25 @@ func (e *Env) afterSuccess(post *World, leg *Leg, execAddr []byte, legs *[]*Leg)
 }
 
 func (e *Env) updateGhost(post *World, leg *Leg) {
+	// the system contract's own role records (A7 a): what it granted and revoked
+	if leg.Input != nil && bytes.Equal(leg.Input.CallerAddr, vmcommon.ESDTSCAddress) && len(leg.Input.Arguments) >= 2 {
+		tok := string(leg.Input.Arguments[0])
+		var names []string
+		for _, a := range leg.Input.Arguments[1:] {
+			names = append(names, string(a))
+		}
+		switch leg.Func {
+		case vmcommon.BuiltInFunctionSetESDTRole:
+			post.ghostSetRoles(leg.Input.RecipientAddr, tok, names, nil)
+		case vmcommon.BuiltInFunctionUnSetESDTRole:
+			post.ghostSetRoles(leg.Input.RecipientAddr, tok, nil, names)
+		case vmcommon.BuiltInFunctionESDTNFTCreateRoleTransfer:
+			if len(leg.Input.Arguments) == 2 {
+				post.ghostSetRoles(leg.Input.RecipientAddr, tok, nil, []string{vmcommon.ESDTRoleNFTCreate})
+				post.ghostSetRoles(leg.Input.Arguments[1], tok, []string{vmcommon.ESDTRoleNFTCreate}, nil)
+			}
+		}
+	}
 	if leg.Func != vmcommon.BuiltInFunctionESDTNFTCreate || leg.Out == nil || len(leg.Out.ReturnData) == 0 || len(leg.Input.Arguments) == 0 {
 		return
 	}
